@@ -133,6 +133,40 @@ theorem validate_error_means_violation (i : Info) (k : Kind) (h : validate i = .
   rw [(validate_iff_rules i).2 hr] at h
   cases h
 
+/-- **which rule a refusal names**: the kind reported by `validate` is the kind of a rule the value
+    really violates (the first one in source order, since a refusal is final — `andThen_err`) -/
+theorem validate_error_kind (i : Info) (k : Kind) (h : validate i = .err k) : KindViolated k i := by
+  unfold validate at h
+  simp only [andThen_err] at h
+  have ne_ok : ∀ {o : Outcome}, o = .err k → o ≠ .ok := fun e => by rw [e]; simp
+  rcases h with h | ⟨_, h | ⟨_, h | ⟨_, h | ⟨_, h | ⟨_, h | ⟨_, h | ⟨_, h | ⟨_, h | ⟨_, h | ⟨_, h | ⟨_, h |
+    ⟨_, h | ⟨_, h | ⟨_, h | ⟨_, h⟩⟩⟩⟩⟩⟩⟩⟩⟩⟩⟩⟩⟩⟩⟩
+  · exact checkDate_err i k h
+  · exact checkGasp_err i k h
+  · exact checkGuidelines_err i k h
+  · exact checkSelection_err i k h
+  · exact checkFamilyClass_err i k h
+  · rcases checkBlue_err _ _ k h with ⟨e, hn⟩ | ⟨e, hn⟩ <;> subst e <;> exact fun hh => hn hh.1
+  · rcases checkBlue_err _ _ k h with ⟨e, hn⟩ | ⟨e, hn⟩ <;> subst e <;> exact fun hh => hn hh.2.1
+  · rcases checkBlue_err _ _ k h with ⟨e, hn⟩ | ⟨e, hn⟩ <;> subst e <;> exact fun hh => hn hh.2.2.1
+  · rcases checkBlue_err _ _ k h with ⟨e, hn⟩ | ⟨e, hn⟩ <;> subst e
+    · exact fun hh => hn hh.2.2.2.1
+    · exact fun hh => hn hh.2.2.2
+  · obtain ⟨e, hn⟩ := checkStem_err _ k h; subst e; exact fun hh => hn hh.2.2.2.2.1
+  · obtain ⟨e, hn⟩ := checkStem_err _ k h; subst e; exact fun hh => hn hh.2.2.2.2.2
+  · have e := checkExtensions_err i k h; subst e
+    exact fun hh => ne_ok h ((checkExtensions_spec i).2.2 hh.1)
+  · have e := checkNonEmpty_err _ k h; subst e
+    exact fun hh => ne_ok h ((checkNonEmpty_spec _).2.2 hh.2.1)
+  · have e := checkNonEmpty_err _ k h; subst e
+    exact fun hh => ne_ok h ((checkNonEmpty_spec _).2.2 hh.2.2.1)
+  · have e := checkNonEmpty_err _ k h; subst e
+    exact fun hh => ne_ok h ((checkNonEmpty_spec _).2.2 hh.2.2.2.1)
+  · have e := checkNonEmpty_err _ k h; subst e
+    exact fun hh => ne_ok h ((checkNonEmpty_spec _).2.2 hh.2.2.2.2)
+
+example : KindViolated .listLen { blueValues := some 15 } := by simp [KindViolated, lenWithin]
+
 /-! ### non-vacuity and the regression witnesses -/
 
 def goodDate : List Char := "2020/06/15 12:30:30".toList
